@@ -810,49 +810,63 @@ _clock: SimClock | None = None
 _clock_installed = False
 
 
+_clock_proxies = None
+_clock_patched: set = set()
+
+
 def install_clock(clock: SimClock):
-    """Rebind the names through which the repository's own modules reach a clock (DESIGN 2.4)."""
-    global _clock, _clock_installed
+    """Rebind the names through which the repository's own modules reach a clock (DESIGN 2.4).
+
+    Modules are (re)scanned on EVERY call: a package that imports its submodules lazily (PEP 562 ``__getattr__``, imports inside
+    functions) has not loaded them all when the clock is first installed -- a module that arrives later would otherwise keep
+    the real clock (found through the behaviour-preserving change r10g: hydration stamps differed between a reference run and a
+    faulted run, which C16 reported as wrong bytes)."""
+    global _clock, _clock_installed, _clock_proxies
     _clock = clock
-    if _clock_installed:
-        return
     import datetime as _dt
     import sys
     import time as _time
     import types
 
-    class SimDateTime(_dt.datetime):
-        @classmethod
-        def now(cls, tz=None):
-            ts = _clock.read()
-            base = _dt.datetime.fromtimestamp(ts, tz=_dt.UTC)
-            if tz is None:
-                return cls.fromtimestamp(ts)
-            return base.astimezone(tz)
+    if _clock_proxies is None:
+        class SimDateTime(_dt.datetime):
+            @classmethod
+            def now(cls, tz=None):
+                ts = _clock.read()
+                base = _dt.datetime.fromtimestamp(ts, tz=_dt.UTC)
+                if tz is None:
+                    return cls.fromtimestamp(ts)
+                return base.astimezone(tz)
 
-        @classmethod
-        def utcnow(cls):
-            return _dt.datetime.fromtimestamp(_clock.read(), tz=_dt.UTC).replace(tzinfo=None)
+            @classmethod
+            def utcnow(cls):
+                return _dt.datetime.fromtimestamp(_clock.read(), tz=_dt.UTC).replace(tzinfo=None)
 
-        @classmethod
-        def today(cls):
-            return cls.now()
+            @classmethod
+            def today(cls):
+                return cls.now()
 
-    timeproxy = types.ModuleType("time")
-    timeproxy.__dict__.update({k: getattr(_time, k) for k in dir(_time) if not k.startswith("__")})
-    timeproxy.time = lambda: _clock.read()
-    timeproxy.monotonic = lambda: _clock.read()
-    timeproxy.perf_counter = lambda: _clock.read()
-    timeproxy.time_ns = lambda: int(_clock.read() * 1e9)
-    dtproxy = types.ModuleType("datetime")
-    dtproxy.__dict__.update({k: getattr(_dt, k) for k in dir(_dt) if not k.startswith("__")})
-    dtproxy.datetime = SimDateTime
-
-    import octave_mcp  # noqa: F401
-
+        timeproxy = types.ModuleType("time")
+        timeproxy.__dict__.update({k: getattr(_time, k) for k in dir(_time) if not k.startswith("__")})
+        timeproxy.time = lambda: _clock.read()
+        timeproxy.monotonic = lambda: _clock.read()
+        timeproxy.perf_counter = lambda: _clock.read()
+        timeproxy.time_ns = lambda: int(_clock.read() * 1e9)
+        timeproxy.monotonic_ns = lambda: int(_clock.read() * 1e9)
+        timeproxy.perf_counter_ns = lambda: int(_clock.read() * 1e9)
+        dtproxy = types.ModuleType("datetime")
+        dtproxy.__dict__.update({k: getattr(_dt, k) for k in dir(_dt) if not k.startswith("__")})
+        dtproxy.datetime = SimDateTime
+        _clock_proxies = (SimDateTime, timeproxy, dtproxy)
+        try:
+            import_everything()
+        except Exception:  # noqa: BLE001
+            pass
+    SimDateTime, timeproxy, dtproxy = _clock_proxies
     for name, mod in list(sys.modules.items()):
-        if not name.startswith("octave_mcp") or mod is None:
+        if not name.startswith("octave_mcp") or mod is None or name in _clock_patched:
             continue
+        _clock_patched.add(name)
         for attr, val in list(vars(mod).items()):
             if val is _dt.datetime:
                 setattr(mod, attr, SimDateTime)
